@@ -74,6 +74,9 @@ func (c18) Plan(tier string, seed uint64) []core.Case {
 		for _, s := range scns[i:hi] {
 			sub = append(sub, s)
 		}
+		if i == 0 {
+			cases = append(cases, core.Case{ID: "C18/inproc-registry", Engine: "registry", Seed: seed, Solo: true, TimeoutS: 300})
+		}
 		cases = append(cases, core.Case{ID: fmt.Sprintf("C18/%03d", i/per), Engine: "scenarios", Seed: core.Derive(seed, uint64(i)).Uint64(), Solo: true, P: map[string]interface{}{"scenarios": sub, "race": tier == "thorough" && (i/per)%3 == 0}, TimeoutS: 600})
 	}
 	return cases
@@ -82,6 +85,10 @@ func (c18) Plan(tier string, seed uint64) []core.Case {
 func (p c18) Run(c core.Case) core.Result {
 	var r core.Result
 	r.Verdict = core.Held
+	if c.Engine == "registry" {
+		p.registry(&r, c)
+		return r
+	}
 	var scns []c18scn
 	remarshal(c.P["scenarios"], &scns)
 	rng := core.NewRng(c.Seed)
@@ -470,6 +477,20 @@ func (p c18) scenario(r *core.Result, s c18scn, seed uint64) {
 	for _, c := range cls {
 		_ = c.cc.Close()
 	}
+	// the stalled clients stay connected until the server has wound their sessions down (its finish has a 1 s
+	// send timeout); a client that disconnects first would legitimately leave the server channel 'established'
+	for _, sc := range stalled {
+		cb.mu.Lock()
+		ch := cb.chans[sc.cc.ID()]
+		cb.mu.Unlock()
+		deadline := time.Now().Add(6 * time.Second)
+		for ch != nil && time.Now().Before(deadline) {
+			if st := ch.State(); st == lime.SessionStateFinished || st == lime.SessionStateFailed {
+				break
+			}
+			time.Sleep(5 * time.Millisecond)
+		}
+	}
 	for _, sc := range stalled {
 		// (a TCP channel whose receiver was never started closes at once; no draining is attempted)
 		_ = sc.t.Close()
@@ -538,4 +559,68 @@ func (p c18) scenario(r *core.Result, s c18scn, seed uint64) {
 	if r.Sample == nil {
 		r.Sample = map[string]interface{}{"scenario": s, "sessions_established": len(cls), "serve_error": fmt.Sprint(serveErr), "goroutines_before": baseG, "goroutines_after": len(left)}
 	}
+}
+
+
+// registry: clients keep dialling the in-process address while servers on it are started and closed over and over;
+// the process must survive (the child's death is attributed to this case by the parent).
+func (p c18) registry(r *core.Result, c core.Case) {
+	addrs := []lime.InProcessAddr{rig.NewInProcAddr(), rig.NewInProcAddr()}
+	stop := make(chan struct{})
+	var wg sync.WaitGroup
+	var dials int64
+	for g := 0; g < 12; g++ {
+		wg.Add(1)
+		go func(g int) {
+			defer wg.Done()
+			for {
+				select {
+				case <-stop:
+					return
+				default:
+				}
+				if t, err := lime.DialInProcess(addrs[g%2], 1); err == nil {
+					_ = t.Close()
+				}
+				atomic.AddInt64(&dials, 1)
+			}
+		}(g)
+	}
+	cycles := 0
+	for i := 0; i < 150; i++ {
+		for _, a := range addrs {
+			cfg := rig.DefaultServerConfig()
+			srv := lime.NewServer(cfg, &lime.EnvelopeMux{}, lime.NewBoundListener(lime.NewInProcessTransportListener(a), a))
+			done := make(chan error, 1)
+			go func() { done <- srv.ListenAndServe() }()
+			// serving is observable once a dial on the address is accepted (Close before that is not generated)
+			for k := 0; k < 100000; k++ {
+				if t, err := lime.DialInProcess(a, 1); err == nil {
+					_ = t.Close()
+					break
+				}
+				runtime.Gosched()
+			}
+			for k := 0; k < 50; k++ {
+				runtime.Gosched()
+			}
+			_ = srv.Close()
+			select {
+			case <-done:
+			case <-time.After(15 * time.Second):
+				r.Violate("C18/serve-did-not-return/registry", "ListenAndServe did not return within 15 s after Close while clients keep dialling in-process")
+				close(stop)
+				return
+			}
+			cycles++
+		}
+	}
+	close(stop)
+	wg.Wait()
+	r.Evals = cycles
+	r.Count("registry_cycles", cycles)
+	r.Count("registry_dials", int(atomic.LoadInt64(&dials)))
+	r.NonTrivial = true
+	r.Fingerprint = "inproc-registry"
+	r.Sample = map[string]interface{}{"engine": "in-process registry stress", "start_close_cycles": cycles, "concurrent_dials": atomic.LoadInt64(&dials)}
 }
